@@ -44,7 +44,7 @@ fn small_val(rng: &mut Rng, tag: u8) -> Val {
     Val::Bytes(vec![b'v', tag, b'a' + rng.below(26) as u8])
 }
 
-fn gen_program(kind: TKind, run_seed: u64, _tier: Tier) -> TProgram {
+fn gen_program(kind: TKind, run_seed: u64, tier: Tier) -> TProgram {
     let mut rng = Rng::sub(run_seed, "tprog");
     let mut knobs = Knobs::default_for(run_seed);
     knobs.shards = *rng.pick(&[2usize, 2, 4, 16]);
@@ -131,8 +131,10 @@ fn gen_program(kind: TKind, run_seed: u64, _tier: Tier) -> TProgram {
     let mut tag = 0u8;
     let mut opaque = 0x7000_0000u32;
     for _t in 0..n_clients {
-        let n_ops = match kind {
-            TKind::C14 => rng.range(1, 3),
+        let n_ops = match (kind, tier) {
+            (TKind::C14, _) => rng.range(1, 3),
+            // deeper bound in the thorough tier: up to 3 operations per client
+            (_, Tier::Thorough) => *rng.pick(&[1u64, 1, 2, 2, 3]),
             _ => rng.range(1, 2),
         } as usize;
         let mut ops = Vec::new();
